@@ -12,28 +12,36 @@ Import ListNotations.
 (** The archive decision (objectSetsToBeArchived) for EVERY chain of revisions of any length with any flags, whatever
     requests were made before and whichever fault is injected: a revision is named only if it has confirmed it is
     paused, is not archived, is not the newest, and a newer revision is Available or it is itself unavailable, has
-    reported controllerOf and controls nothing the next newer revision contains (inline or in its ObjectSlices). *)
+    reported controllerOf and controls nothing the next newer revision contains (inline or in its ObjectSlices, all of
+    which were read); [p_dead st' = false]: no request of the walk failed. *)
 Theorem C08_archive_kernel :
   forall fault slices L st mem st' mem' l,
-    to_archive fault slices st mem (rev L) = (st', mem', l) ->
-    forall n, In n l -> archivable (full_objects slices) L n.
-Proof. exact (fun fault slices => archive_kernel_sound fault slices true). Qed.
+    to_archive fault slices st mem (rev L) = (st', mem', l) -> p_dead st' = false ->
+    forall n, In n l -> archivable (full_objects slices) (refs_known slices) L n.
+Proof. exact archive_kernel_now. Qed.
 Print Assumptions C08_archive_kernel.
 
 (** Every SetArchived of a pass, in terms of the ObjectSets as listed before the pass. *)
 Theorem C08_archive_sound :
   forall hash fault slices stale w w' evs r n pbp ur,
     NoDup (map sname (dw_sets w)) -> dep_pass hash fault slices stale w = (w', evs, r) ->
-    In (DUpdate n LArchived pbp ur) evs -> archivable (full_objects slices) (listed stale w) n.
+    In (DUpdate n LArchived pbp ur) evs -> archivable (full_objects slices) (refs_known slices) (listed stale w) n.
 Proof. exact archive_sound_now. Qed.
 Print Assumptions C08_archive_sound.
+
+(** A referenced ObjectSlice that cannot be read (NotFound, or any other error) fails the walk: the pass ends with an
+    error, and (C08_archive_sound) nothing is archived on the strength of an unread slice. *)
+Theorem C08_unreadable_slice_fails :
+  forall fault slices st cur, ~ refs_known slices cur -> p_dead (load_slices_req fault slices st cur) = true.
+Proof. exact unreadable_slice_fails. Qed.
+Print Assumptions C08_unreadable_slice_fails.
 
 (** Second half of F-C14, fixed by /repo commit f07b836: the getter as it was looked at the inline objects of the next
     newer revision only, so the rule held for those ... *)
 Theorem C08_archive_sound_v0_partial :
   forall hash fault slices stale w w' evs r n pbp ur,
     NoDup (map sname (dw_sets w)) -> dep_pass_v0 hash fault slices stale w = (w', evs, r) ->
-    In (DUpdate n LArchived pbp ur) evs -> archivable set_objects (listed stale w) n.
+    In (DUpdate n LArchived pbp ur) evs -> archivable set_objects (fun _ => True) (listed stale w) n.
 Proof. exact archive_sound_v0_inline. Qed.
 Print Assumptions C08_archive_sound_v0_partial.
 
@@ -42,7 +50,7 @@ Theorem C08_archive_sound_v0_refuted :
   exists w slices evs w' r n pbp r1 r2 k,
     dep_pass_v0 wit_hash None slices false w = (w', evs, r) /\ In (DUpdate n LArchived pbp WOk) evs /\
     listed false w = [r1; r2] /\ sname r1 = n /\ In k (os_ctrlof (ds_set r1)) /\ In k (full_objects slices r2) /\
-    is_available r2 = false /\ ~ archivable (full_objects slices) (listed false w) n.
+    is_available r2 = false /\ ~ archivable (full_objects slices) (fun _ => True) (listed false w) n.
 Proof. exact archive_sound_v0_refuted. Qed.
 Print Assumptions C08_archive_sound_v0_refuted.
 
